@@ -122,7 +122,7 @@ PropC12(e) ==
        /\ e.array = o(v) /\ e.ascii = o(v) /\ e.list1 = o(v)
        /\ e.list2 = o(v \/ el) /\ e.dup = "refused" /\ e.twoell = o(v)
        \* no name occurs twice anywhere in a tree, however the tree comes about
-       /\ e.dupsib = "refused" /\ e.dupcousin = "refused" /\ e.duprename = "refused" /\ e.dupinsert = "refused"
+       /\ e.dupsib = "refused" /\ e.dupcousin = "refused" /\ e.duprename = "refused" /\ e.dupinsert = "refused" /\ e.dupinsertdeep = "refused"
        /\ e.dupnest = "refused" /\ e.dupnestfill = "refused"        \* (repeat markers included)
        /\ e.dupgen = "refused" /\ e.dupgenfill = "refused"          \* (names generated by an expansion included)
        /\ e.dupsameU = "refused" /\ e.dupsameI = "refused" /\ e.dupsameF = "refused" /\ e.dupsameB = "refused" /\ e.dupsameT = "refused"
